@@ -310,7 +310,22 @@ func (s *Srv) Start(cfg SrvCfg) error {
 }
 
 // startSrv = newSrv + register + Start.
+// Every workload gets some variety in how its servers are set up, whatever it asked for: every third server started
+// through startSrv attaches its (still empty) mux before the routes are registered, every fourth one (when the workload
+// set no timeouts of its own) runs with read and write timeouts configured - two hours, far beyond any phase. Neither
+// changes what a correct server does; both are paths a workload would otherwise never walk.
+var srvStarted, srvRouterFirst, srvLongTimeouts atomic.Int64
+
 func startSrv(cfg SrvCfg, register func(m *gldap.Mux)) (*Srv, error) {
+	n := srvStarted.Add(1)
+	if !cfg.RouterFirst && n%3 == 1 {
+		cfg.RouterFirst = true
+		srvRouterFirst.Add(1)
+	}
+	if cfg.ReadTimeout == 0 && cfg.WriteTimeout == 0 && n%4 == 2 {
+		cfg.ReadTimeout, cfg.WriteTimeout = 2*time.Hour, 2*time.Hour
+		srvLongTimeouts.Add(1)
+	}
 	s, err := newSrv(cfg)
 	if err != nil {
 		return nil, err
